@@ -338,4 +338,59 @@ example : (match yaccParse sampleToks with
         NoTagTypedBeforeDiv e && decide (parseExpr (print e) = some e) && decide (nops e = 4)
     | none => false) = true := by decide
 
+/-! ## option / plan / chunk codecs: field coverage
+
+The tables are regenerated from the encoder / decoder bodies on every run. "Serialising then
+deserialising yields equal objects" needs, per codec: every wire field the encoder writes is read
+by the decoder; every struct field the encoder ships is restored by the decoder; and every struct
+field is shipped or is on the recorded list of fields the code keeps local (`…Local`). -/
+
+def subsetOf (a b : List String) : Bool := a.all fun x => b.contains x
+
+/-- ProcessorOptions fields that stay on the node that built them (channels, the authorizer, the
+context, planner-side flags) — the recorded expectation; a new field must be shipped or added
+here. -/
+def optionsLocal : List String :=
+  ["Exprs", "FieldAux", "TagAux", "Parallel", "InterruptCh", "Authorizer", "ChunkedSize", "Chunked",
+   "AbortChan", "RowsChan", "isTimeFirstKey", "StmtId", "CompareOffset", "LowerOpt", "BinOp",
+   "IsCountValues", "SimpleTagset", "RemoveMetric", "NoPushDownDim", "ctx", "InConditons",
+   "IsSameDims", "IsArrowQuery"]
+
+theorem options_codec_covered :
+    subsetOf cov_options_wireWritten cov_options_wireRead = true ∧
+    subsetOf cov_options_encoded cov_options_decoded = true ∧
+    subsetOf cov_options_fields (cov_options_encoded ++ optionsLocal) = true := by decide
+
+def measurementLocal : List String := ["IsSystemStatement", "Alias", "MstType"]
+
+theorem measurement_codec_covered :
+    subsetOf cov_measurement_wireWritten cov_measurement_wireRead = true ∧
+    subsetOf cov_measurement_encoded cov_measurement_decoded = true ∧
+    subsetOf cov_measurement_fields (cov_measurement_encoded ++ measurementLocal) = true := by decide
+
+theorem schema_codec_covered : subsetOf cov_schema_wireWritten cov_schema_wireRead = true := by decide
+
+/-- result chunks: every field `Marshal` writes is set by `Unmarshal` (and counted by `Size`,
+except the fixed-size ones); the row type, the embedded record and the graph are rebuilt by the
+receiver from the plan. -/
+theorem chunk_codec_covered :
+    subsetOf cov_chunk_encoded cov_chunk_decoded = true ∧
+    subsetOf cov_chunk_fields (cov_chunk_encoded ++ ["rowDataType", "Record", "graph"]) = true ∧
+    subsetOf cov_chunk_encoded cov_chunk_sized = true ∧
+    subsetOf cov_column_encoded cov_column_decoded = true ∧
+    subsetOf cov_column_fields cov_column_encoded = true ∧
+    subsetOf cov_bitmap_encoded cov_bitmap_decoded = true ∧
+    subsetOf cov_bitmap_fields cov_bitmap_encoded = true ∧
+    subsetOf cov_chunkTags_encoded cov_chunkTags_decoded = true ∧
+    subsetOf cov_chunkTags_fields (cov_chunkTags_encoded ++ ["offsets"]) = true := by decide
+
+/-- plan nodes: every node type `MarshalBinary` ships has a case in `UnmarshalBinaryNode` that
+reads every message field written for it and builds a node — except LogicalMst, whose case is
+marked "unused" in the source and builds nothing (recorded). -/
+theorem plan_codec_covered :
+    cov_plan.all (fun (name, written, read?, builds) =>
+      match read? with
+      | some read => subsetOf written read && (builds || name == "LogicalMst")
+      | none => false) = true := by decide
+
 end OG.C12
